@@ -316,6 +316,24 @@ fn tasks_for(prop: &str, tier: &str, seed: u64) -> Vec<Task> {
                     });
                 }
             }
+            // the recorded generator lists are read through the aggregated views and the per-party shares: every way of
+            // walking them (collect, nth, skip, step_by, fold, ...) must give the pinned derivation (concrete, shared with C12)
+            for c in ["secq256k1", "zorro", "curve25519"] {
+                let c = c.to_string();
+                let replay = serde_json::json!({"kind": "c12", "curve": c, "maxlen": 3, "seed": seed});
+                out.push(Task {
+                    name: format!("C18:generator_views:{}", c),
+                    replay: replay.clone(),
+                    run: Box::new(move || {
+                        let checks = match c.as_str() {
+                            "secq256k1" => scen_native::c12_native::<Secq>(4),
+                            "zorro" => scen_native::c12_native::<Zorro>(4),
+                            _ => scen_native::c12_native::<Ed>(4),
+                        };
+                        native_job("C18", "generator_views", &c, seed, checks, replay)
+                    }),
+                });
+            }
             out
         }
         "C15" => {
